@@ -234,6 +234,15 @@ func (m *membership) universalIDByPartyID(id PartyID) UniversalID {
 	return m.pID2UID[id]
 }
 
+// nodesByPartyID maps each party to the node that represents it among the given session members.
+func (m *membership) nodesByPartyID(members []UniversalID) map[PartyID]UniversalID {
+	res := make(map[PartyID]UniversalID, len(members))
+	for _, uID := range members {
+		res[m.partyIDByUniversalID(uID)] = uID
+	}
+	return res
+}
+
 func computeMembership(mapping map[UniversalID]PartyID) *membership {
 	protocol2universal := make(map[PartyID]UniversalID)
 	universal2Protocol := make(map[UniversalID]PartyID)
@@ -599,7 +608,8 @@ func (s *Scheme) prepareSigning(membership *membership, parties []PartyID, topic
 	}, func(m interface{}, from uint16) {
 		msg := m.(*rbcMsg)
 		s.Logger.Debugf("Got round %d message from %d", msg.round, from)
-		signingProtocol.OnMsg(msg.payload, from, msg.broadcast)
+		sourceParty := uint16(membership.partyIDByUniversalID(UniversalID(from)))
+		signingProtocol.OnMsg(msg.payload, sourceParty, msg.broadcast)
 	}, len(signers))
 
 	rbc = &rbcFilter{
@@ -630,7 +640,13 @@ func (s *Scheme) initializeDKG(dkg KeyGenerator, threshold int, members []Univer
 
 	dkgTopicHash := hash([]byte(DkgTopicName))
 
-	dkg.Init(universalIDsToUInts(members), threshold, func(msg []byte, isBroadcast bool, to uint16) {
+	parties, err := membership.partyIDsByUniversalIDs(members)
+	if err != nil {
+		return err
+	}
+	party2Node := membership.nodesByPartyID(members)
+
+	dkg.Init(partyIDsToUInts(parties), threshold, func(msg []byte, isBroadcast bool, to uint16) {
 		var payload []byte
 		payload = append(payload, 255)
 		payload = append(payload, msg...)
@@ -638,7 +654,12 @@ func (s *Scheme) initializeDKG(dkg KeyGenerator, threshold int, members []Univer
 			s.Send(uint8(MsgTypeMPC), dkgTopicHash, payload, membersWithoutMe...)
 			return
 		}
-		s.Send(uint8(MsgTypeMPC), dkgTopicHash, payload, membership.universalIDByPartyID(PartyID(to)))
+		dst, exists := party2Node[PartyID(to)]
+		if !exists {
+			s.Logger.Warnf("Party %d is not a participant of the key generation, dropping message to it", to)
+			return
+		}
+		s.Send(uint8(MsgTypeMPC), dkgTopicHash, payload, dst)
 	})
 
 	return nil
@@ -652,6 +673,7 @@ func (s *Scheme) initializeThresholdSigning(membership *membership, parties []Pa
 	}
 
 	membersWithoutMe := excludeUniversal(signers, s.SelfID)
+	party2Node := membership.nodesByPartyID(signers)
 
 	signer.Init(partyIDsToUInts(parties), s.Threshold, func(msg []byte, isBroadcast bool, to uint16) {
 		var payload []byte
@@ -661,7 +683,12 @@ func (s *Scheme) initializeThresholdSigning(membership *membership, parties []Pa
 			s.Send(uint8(MsgTypeMPC), topicHash, payload, membersWithoutMe...)
 			return
 		}
-		s.Send(uint8(MsgTypeMPC), topicHash, payload, membership.universalIDByPartyID(PartyID(to)))
+		dst, exists := party2Node[PartyID(to)]
+		if !exists {
+			s.Logger.Warnf("Party %d is not a participant of the signing session, dropping message to it", to)
+			return
+		}
+		s.Send(uint8(MsgTypeMPC), topicHash, payload, dst)
 	})
 
 	return signer, nil
